@@ -1,4 +1,5 @@
 """C20 -- CP^1 points, disks, Moebius maps (O1, K1, K2, U1)."""
+from ..rules import numpy_rules as NPR
 from ..rules import cp1_rules as R
 from ..rules import dtype_rules as DTY
 from ..rules import cache_rules as CA
@@ -22,6 +23,7 @@ ENTRIES = [
 
 
 def run(ctx):
+    ctx.do(NPR.rule_putmask1, ["geometry_tools/hyperbolic.py", "geometry_tools/projective.py", "geometry_tools/complex_projective.py", "geometry_tools/utils/core.py"])
     ctx.do(R.rule_o1, [REL, "geometry_tools/utils/cp1.py"])
     ctx.do(R.rule_k1, REL)
     ctx.do(R.rule_k2)
